@@ -71,6 +71,24 @@ prop("C11", "exploration", BUF_RULE,
      "runtime reference-model monitor (model-based operation sequences)", "DESIGN.md §3 C09-C11")
 
 
+prop("C13", "exploration",
+     "cases = concurrent histories of the real queue recorded at the call boundary with one global atomic clock (call stamp before invoking, return stamp after): "
+     "short histories (2-3 clients x 3-5 random Enqueue/Dequeue, optional sequential prefix, final sequential drain) judged by porcupine against a sequential FIFO model "
+     "AND by polynomial checks (phantom / duplicate / lost value, real-time FIFO inversion, empty answer while a value was present for the whole call), long histories "
+     "(1-4 producers, 1-3 consumers, ~5*10^5 operations) judged by the polynomial checks; Length/IsEmpty compared with the history at every quiescent point. The queue source "
+     "is rewritten with a yield point before every atomic operation; per history one or two focus points pause 20-220 us. distinct_nontrivial = distinct global orders of "
+     "yield-point hits (interleaving signatures) among histories in which operations of different clients overlapped in time, plus distinct long-history shapes",
+     [
+         {"harness": "lfq", "flavour": "points", "args": {"quick": ["--mode", "short"], "thorough": ["--mode", "short", "--n", "300000"]}, "timeout": {"quick": 600, "thorough": 3000}},
+         {"harness": "lfq", "flavour": "points", "args": {"quick": ["--mode", "long"], "thorough": ["--mode", "long", "--n", "40"]}, "timeout": {"quick": 600, "thorough": 3000}},
+         {"harness": "lfq", "flavour": "points", "race": True, "tiers": ["thorough"], "args": {"thorough": ["--mode", "short", "--n", "20000"]}, "timeout": {"thorough": 3000}},
+     ],
+     "Offline linearizability checking (porcupine v1.3.0) of recorded histories of the real lock-free queue under delay injection at every atomic operation, plus sound "
+     "polynomial history checks that unique values make possible for long histories.",
+     "histories are recorded outside the queue (client boundary); porcupine timeouts (10 s per history) count as inconclusive; schedules are sampled, not enumerated",
+     "history recording + porcupine linearizability checker + polynomial history checks, delay injection at yield points", "DESIGN.md §3 C13")
+
+
 # ---------------------------------------------------------------------------------------
 NOT_APPLICABLE = []
 
